@@ -11,13 +11,31 @@ RESERVED = {1: "LABREA", 2: "CACHE", 3: "DISABLED", 4: "DISABLE", 5: "EFFECTS", 
 RESERVED_INV = {v: k for k, v in RESERVED.items()}
 
 
+# Option names are free (the model only sees atoms).  Some atoms get names that are plain STRING
+# prefixes / extensions of other option names (no dot boundary): K10 / K10B at the top level and
+# K21 / K21Y inside section K20 - code that confuses "is a string prefix of" with "is a dotted
+# parent of" (startswith without the dot) then behaves differently from the model.
+ALIASES = {11: "K10B", 22: "K21Y"}
+ALIASES_INV = {v: k for k, v in ALIASES.items()}
+
+
+def canon_names(text):
+    """observation text with aliased option names replaced by the canonical K<atom> the model prints
+    (generated literals never contain the letter K)"""
+    for name, atom in ALIASES_INV.items():
+        text = text.replace(name, f"K{atom}")
+    return text
+
+
 def name_of(atom):
-    return RESERVED.get(atom, f"K{atom}")
+    return RESERVED.get(atom) or ALIASES.get(atom) or f"K{atom}"
 
 
 def atom_of(name):
     if name in RESERVED_INV:
         return RESERVED_INV[name]
+    if name in ALIASES_INV:
+        return ALIASES_INV[name]
     assert name.startswith("K"), name
     return int(name[1:])
 
@@ -754,7 +772,7 @@ def run_impl(scn, want_objects=False, raw_out=None):
                 except Exception as exc:  # noqa
                     c, ee = classify(exc)
                     r = f"err:{c}:{'T' if ee else 'F'}"
-            lines.append(r + "|" + " ".join(w.calls))
+            lines.append(canon_names(r + "|" + " ".join(w.calls)))
             if raw_out is not None:
                 raw_out.append(raw)
     finally:
